@@ -97,6 +97,26 @@ func (g *gen) n(lo, hi int, label string) int {
 	return rapid.IntRange(lo, hi).Draw(g.t, label)
 }
 
+// repeat runs body between min and max times. It is built on rapid.SliceOfN over a rapid.Custom
+// element so that the shrinker can delete a single iteration (a whole message, field, enum value …)
+// instead of having to lower a count drawn up front, which would re-interpret everything after it.
+func (g *gen) repeat(label string, min, max int, body func(i int)) {
+	if max < min {
+		max = min
+	}
+	i := 0
+	elem := rapid.Custom(func(t *rapid.T) struct{} {
+		old := g.t
+		g.t = t
+		defer func() { g.t = old }()
+		rapid.Bool().Draw(t, "-") // an element must consume data even when body draws nothing
+		body(i)
+		i++
+		return struct{}{}
+	})
+	rapid.SliceOfN(elem, min, max).Draw(g.t, label)
+}
+
 // chance is true with probability 1/den and false at the minimal draw (so shrinking removes the construct).
 func (g *gen) chance(den int, label string) bool {
 	return rapid.IntRange(0, den-1).Draw(g.t, label) == den-1
@@ -140,10 +160,7 @@ func (g *gen) run() []*fdp {
 	if g.o.WellKnown {
 		g.initWellKnown()
 	}
-	nFiles := g.n(1, g.o.MaxFiles, "files")
-	for i := 0; i < nFiles; i++ {
-		g.fileSkeleton(i)
-	}
+	g.repeat("files", 1, g.o.MaxFiles, func(i int) { g.fileSkeleton(i) })
 	for _, f := range g.files {
 		g.fillFile(f)
 	}
@@ -254,12 +271,12 @@ func (g *gen) fileSkeleton(i int) {
 
 	sc := g.scope(f.pkg)
 	// enums first (complete), then message skeletons
-	for k, n := 0, g.n(0, g.o.MaxEnums, "file-enums"); k < n; k++ {
+	g.repeat("file-enums", 0, g.o.MaxEnums, func(k int) {
 		f.fd.EnumType = append(f.fd.EnumType, g.enum(f, sc, f.pkg, nil))
-	}
-	for k, n := 0, g.n(0, g.o.MaxMessages, "file-msgs"); k < n; k++ {
+	})
+	g.repeat("file-msgs", 0, g.o.MaxMessages, func(k int) {
 		f.fd.MessageType = append(f.fd.MessageType, g.msgSkeleton(f, sc, f.pkg, nil).dp)
-	}
+	})
 }
 
 func join(prefix, name string) string {
@@ -429,12 +446,11 @@ func (g *gen) enum(f *fileCtx, sc *scope, prefix string, parent *msgSym) *edp {
 		}
 	}
 	// values
-	nv := g.n(1, g.o.MaxValues, "values")
 	usedNum := map[int32]bool{}
 	keys := map[string]int32{}
 	var nums []int32
 	alias := false
-	for i := 0; i < nv; i++ {
+	g.repeat("values", 1, g.o.MaxValues, func(i int) {
 		var num int32
 		switch {
 		case i == 0:
@@ -513,7 +529,7 @@ func (g *gen) enum(f *fileCtx, sc *scope, prefix string, parent *msgSym) *edp {
 		}
 		v.Options = vo
 		e.Value = append(e.Value, v)
-	}
+	})
 	sym.zero = nums[0] == 0
 	if alias {
 		getOpts().AllowAlias = proto.Bool(true)
@@ -522,7 +538,7 @@ func (g *gen) enum(f *fileCtx, sc *scope, prefix string, parent *msgSym) *edp {
 		getOpts().Deprecated = proto.Bool(true)
 	}
 	// reserved ranges (inclusive) and names
-	for k, n := 0, g.n(0, g.o.MaxRanges, "enum-reserved"); k < n; k++ {
+	g.repeat("enum-reserved", 0, g.o.MaxRanges, func(k int) {
 		lo := int64(pick(g, []int32{math.MinInt32, -100, -5, 4, 20, 200, 5000, math.MaxInt32 - 10, math.MaxInt32}, "lo"))
 		hi := lo + int64(pick(g, []int32{0, 0, 1, 5, 100}, "len"))
 		if hi > math.MaxInt32 {
@@ -542,14 +558,14 @@ func (g *gen) enum(f *fileCtx, sc *scope, prefix string, parent *msgSym) *edp {
 		if ok {
 			e.ReservedRange = append(e.ReservedRange, &descriptorpb.EnumDescriptorProto_EnumReservedRange{Start: proto.Int32(int32(lo)), End: proto.Int32(int32(hi))})
 		}
-	}
+	})
 	if g.chance(6, "enum-reserved-names") {
-		for k, n := 0, g.n(1, 2, "n"); k < n; k++ {
+		g.repeat("n", 1, 2, func(k int) {
 			rn := fmt.Sprintf("RESERVED_%d", k)
 			if sc.free(rn) {
 				e.ReservedName = append(e.ReservedName, rn)
 			}
-		}
+		})
 	}
 	if f.is2024() && g.chance(5, "enum-visibility") {
 		e.Visibility = pick(g, []descriptorpb.SymbolVisibility{descriptorpb.SymbolVisibility_VISIBILITY_LOCAL, descriptorpb.SymbolVisibility_VISIBILITY_EXPORT}, "v").Enum()
